@@ -64,6 +64,13 @@ def main():
             nd[tid] = d
             meta[tid] = (r, k)
             jobs.append({'tid': tid, 'deck': d, 'opts': []})
+            if k == 0 or thorough:
+                # covariance: the same deck under a general rigid motion
+                tid += 1
+                nd[tid] = d
+                meta[tid] = (r, k)
+                jobs.append({'tid': tid, 'deck': d, 'opts': [], 'phi': adeck.PHIS[tid % len(adeck.PHIS)], 'moved': True})
+    moved = {j['tid'] for j in jobs if j.get('moved')}
     records = conv.run_batch(deckrun.run_deck, jobs, chunksize=16)
     core.lap('converter x%d' % len(jobs))
     good = []
@@ -94,7 +101,7 @@ def main():
                 continue
             err = rec['err']
             sig = {'clause': kind, 'body': card['k'], 'nparam': len(card['p']), 'facet': k,
-                   'handedness': handedness(card),
+                   'handedness': handedness(card), 'moved': tid in moved,
                    'errtype': err['type'] if err else None, 'where': err['where'] if err else None}
             chk.violation(sig, {'text': rec['text'], 'card': card, 'facet': k, 'error': err,
                                 'deck': nd[tid], 'clauses': 'owner',
